@@ -42,13 +42,134 @@ def fitted_state(est, name):
   return tuple(out)
 
 
+def one_spec(ctx, name, kw, data, pkinds, tag):
+  from metric_learn.exceptions import PreprocessorError
+  thorough = ctx.tier == 'thorough'
+  rng = ctx.rng
+  X = data['X']
+  n, d = X.shape
+  kind = fits.KIND[name]
+  args = fits.fit_args(name, data)
+  # indicators for the training call
+  if kind in ('unsup', 'class', 'reg', 'chunks'):
+    train_idx = rng.permutation(n)
+    extra = tuple(np.asarray(a)[train_idx] for a in args[1:])
+    formed_train = (X[train_idx],) + extra
+  else:
+    key = {'pairs': 'pairs_idx', 'triplets': 'trip_idx', 'quads': 'quad_idx'}[kind]
+    train_idx = data[key]
+    formed_train = args
+    extra = args[1:]
+  try:
+    with warnings.catch_warnings():
+      warnings.simplefilter('ignore')
+      ref = fits.make_estimator(name, kw).fit(*formed_train)
+  except Exception as ex:
+    ctx.count('fit_failed', 1)
+    return
+  ref_state = fitted_state(ref, name)
+  # query data
+  pts_idx = rng.integers(0, n, size=7)
+  pair_idx = rng.integers(0, n, size=(6, 2))
+  ts = fits.TUPLE_SIZE.get(name)
+  tup_idx = rng.integers(0, n, size=(6, ts)) if ts else None
+  ypm = np.where(np.arange(6) % 2 == 0, 1, -1)
+  for pkind in pkinds:
+    counting = Counting(X)
+    pre = X if pkind == 'ndarray' else X.tolist() if pkind == 'list' else counting
+    kwp = dict(kw)
+    kwp['preprocessor'] = pre
+    for iname, tidx in ([('int64', train_idx)] + (index_variants(rng, train_idx)[1:] if thorough or pkind == 'ndarray' else [])):
+      ctx.count('fit_indices_vs_formed', 1)
+      ctx.seen((name, 'fit', pkind, iname, tag), True)
+      try:
+        with warnings.catch_warnings():
+          warnings.simplefilter('ignore')
+          est = fits.make_estimator(name, kwp).fit(tidx, *extra)
+      except Exception as ex:
+        ctx.fail_input('fit_indices_vs_formed', '%s.fit on indices raises %s' % (name, type(ex).__name__),
+                       dict(estimator=name, preprocessor=pkind, index_repr=iname), observed=str(ex)[:200])
+        continue
+      if not same(fitted_state(est, name), ref_state):
+        ctx.fail_input('fit_indices_vs_formed', 'fit on indices + preprocessor gives a different model than fit on formed data',
+                       dict(estimator=name, preprocessor=pkind, preprocessor_dtype=tag, index_repr=iname, X=X.tolist(),
+                            indices=np.asarray(tidx).tolist()),
+                       observed=[s.tolist() for s in fitted_state(est, name)], expected=[s.tolist() for s in ref_state])
+    # query methods on the estimator fitted with a preprocessor
+    with warnings.catch_warnings():
+      warnings.simplefilter('ignore')
+      est = fits.make_estimator(name, kwp).fit(train_idx, *extra)
+    calls = [('transform', pts_idx, X[pts_idx], ()), ('pair_distance', pair_idx, X[pair_idx], ()),
+             ('pair_score', pair_idx, X[pair_idx], ())]
+    if ts:
+      calls += [('predict', tup_idx, X[tup_idx], ()), ('decision_function', tup_idx, X[tup_idx], ())]
+      calls += [('score', tup_idx, X[tup_idx], (ypm,) if ts == 2 else ())]
+    for meth, idx, formed, more in calls:
+      for iname, iv in index_variants(rng, idx):
+        ctx.count('query_indices_vs_formed', 1)
+        ctx.seen((name, meth, pkind, iname, tag), True)
+        ctx.hist('method', meth)
+        try:
+          with warnings.catch_warnings():
+            warnings.simplefilter('ignore')
+            a = getattr(est, meth)(iv, *more)
+            before = counting.calls
+            b = getattr(est, meth)(formed, *more)
+            consulted = counting.calls != before
+        except Exception as ex:
+          ctx.fail_input('query_indices_vs_formed', '%s on indices raises %s' % (meth, type(ex).__name__),
+                         dict(estimator=name, method=meth, preprocessor=pkind, index_repr=iname), observed=str(ex)[:200])
+          continue
+        if not same(a, b):
+          ctx.fail_input('query_indices_vs_formed', '%s: indices + preprocessor differ from formed data' % meth,
+                         dict(estimator=name, method=meth, preprocessor=pkind, preprocessor_dtype=tag, index_repr=iname, X=X.tolist(),
+                              indices=np.asarray(iv).tolist()),
+                         observed=np.asarray(a).tolist(), expected=np.asarray(b).tolist())
+        if pkind == 'callable' and consulted:
+          ctx.fail_input('formed_ignores_preprocessor', '%s consults the preprocessor although formed data is passed' % meth,
+                         dict(estimator=name, method=meth))
+    if ts == 2:
+      with warnings.catch_warnings():
+        warnings.simplefilter('ignore')
+        e1 = fits.make_estimator(name, kwp).fit(train_idx, *extra)
+        e1.calibrate_threshold(pair_idx, ypm)
+        t1 = e1.threshold_
+        e1.calibrate_threshold(X[pair_idx], ypm)
+      ctx.count('query_indices_vs_formed', 1)
+      if t1 != e1.threshold_:
+        ctx.fail_input('query_indices_vs_formed', 'calibrate_threshold: indices + preprocessor differ from formed data',
+                       dict(estimator=name, preprocessor=pkind), observed=t1, expected=e1.threshold_)
+  # an exception inside the preprocessor surfaces as PreprocessorError
+  kwr = dict(kw)
+  kwr['preprocessor'] = raising
+  for what in ('fit', 'transform', 'pair_distance'):
+    ctx.count('preprocessor_error_wrapped', 1)
+    try:
+      with warnings.catch_warnings():
+        warnings.simplefilter('ignore')
+        if what == 'fit':
+          fits.make_estimator(name, kwr).fit(train_idx, *extra)
+        else:
+          e = fits.make_estimator(name, kw).fit(*formed_train)
+          e.preprocessor_ = raising
+          getattr(e, what)(pts_idx if what == 'transform' else pair_idx)
+      ctx.fail_input('preprocessor_error_wrapped', '%s returns although the preprocessor raises' % what, dict(estimator=name, method=what))
+    except PreprocessorError:
+      pass
+    except Exception as ex:
+      ctx.fail_input('preprocessor_error_wrapped', '%s: preprocessor exception surfaces as %s' % (what, type(ex).__name__),
+                     dict(estimator=name, method=what), observed=str(ex)[:200])
+  ctx.sample(dict(estimator=name, train_indices=np.asarray(train_idx)[:5].tolist(), query_pair_indices=pair_idx[:2].tolist()), limit=3)
+
+
 def run(ctx):
   from metric_learn.exceptions import PreprocessorError
   thorough = ctx.tier == 'thorough'
   rng = ctx.rng
   ctx.rule = ("17 estimators x every data-taking method (fit, transform, pair_distance, pair_score, predict, "
               "decision_function, score, calibrate_threshold) x preprocessor in {ndarray, nested list, callable} x index "
-              "arrays with repeats, arbitrary order, dtypes int8/uint8/int32/int64/list: fitted model (components_, threshold_) "
+              "arrays with repeats, arbitrary order, dtypes int8/uint8/int32/int64/list, the preprocessor holding float64 data and "
+              "the same run again with integer-valued data held as uint8/int16/uint16/int64: fitted model (components_, threshold_) "
               "and outputs must be bit-identical to the call on formed data; a counting callable must not be consulted for "
               "formed data; a raising callable must surface as PreprocessorError.  distinct = distinct (estimator, method, "
               "preprocessor kind, index representation).")
@@ -56,120 +177,23 @@ def run(ctx):
                  "translator tools/translate_query.py for the per-method table", "numpy fancy indexing X[idx] (oracle)"]
   ctx.build_property(gen_needed=['Src_query'])
   for name, kw, data in fits.zoo_specs(np.random.default_rng(ctx.seed + 23), variants=False):
-    X = data['X']
-    n, d = X.shape
-    kind = fits.KIND[name]
-    args = fits.fit_args(name, data)
-    # indicators for the training call
-    if kind in ('unsup', 'class', 'reg', 'chunks'):
-      train_idx = rng.permutation(n)
-      extra = tuple(np.asarray(a)[train_idx] for a in args[1:])
-      formed_train = (X[train_idx],) + extra
-    else:
-      key = {'pairs': 'pairs_idx', 'triplets': 'trip_idx', 'quads': 'quad_idx'}[kind]
-      train_idx = data[key]
-      formed_train = args
-      extra = args[1:]
-    try:
-      with warnings.catch_warnings():
-        warnings.simplefilter('ignore')
-        ref = fits.make_estimator(name, kw).fit(*formed_train)
-    except Exception as ex:
-      ctx.count('fit_failed', 1)
+    one_spec(ctx, name, kw, data, ('ndarray', 'list', 'callable'), 'float64')
+    # the same numbers held in a narrow / unsigned integer type by the preprocessor (e.g. 8-bit image data)
+    dt = [np.uint8, np.int16, np.uint16, np.int64][int(ctx.rng.integers(0, 4))]
+    di = dict(data)
+    Xi = np.round(data['X'] * 4)
+    Xi = Xi - Xi.min()
+    if Xi.max() > 250 or len(np.unique(Xi, axis=0)) != len(Xi):
       continue
-    ref_state = fitted_state(ref, name)
-    # query data
-    pts_idx = rng.integers(0, n, size=7)
-    pair_idx = rng.integers(0, n, size=(6, 2))
-    ts = fits.TUPLE_SIZE.get(name)
-    tup_idx = rng.integers(0, n, size=(6, ts)) if ts else None
-    ypm = np.where(np.arange(6) % 2 == 0, 1, -1)
-    for pkind in ('ndarray', 'list', 'callable'):
-      counting = Counting(X)
-      pre = X if pkind == 'ndarray' else X.tolist() if pkind == 'list' else counting
-      kwp = dict(kw)
-      kwp['preprocessor'] = pre
-      for iname, tidx in ([('int64', train_idx)] + (index_variants(rng, train_idx)[1:] if thorough or pkind == 'ndarray' else [])):
-        ctx.count('fit_indices_vs_formed', 1)
-        ctx.seen((name, 'fit', pkind, iname), True)
-        try:
-          with warnings.catch_warnings():
-            warnings.simplefilter('ignore')
-            est = fits.make_estimator(name, kwp).fit(tidx, *extra)
-        except Exception as ex:
-          ctx.fail_input('fit_indices_vs_formed', '%s.fit on indices raises %s' % (name, type(ex).__name__),
-                         dict(estimator=name, preprocessor=pkind, index_repr=iname), observed=str(ex)[:200])
-          continue
-        if not same(fitted_state(est, name), ref_state):
-          ctx.fail_input('fit_indices_vs_formed', 'fit on indices + preprocessor gives a different model than fit on formed data',
-                         dict(estimator=name, preprocessor=pkind, index_repr=iname, X=X.tolist(),
-                              indices=np.asarray(tidx).tolist()),
-                         observed=[s.tolist() for s in fitted_state(est, name)], expected=[s.tolist() for s in ref_state])
-      # query methods on the estimator fitted with a preprocessor
-      with warnings.catch_warnings():
-        warnings.simplefilter('ignore')
-        est = fits.make_estimator(name, kwp).fit(train_idx, *extra)
-      calls = [('transform', pts_idx, X[pts_idx], ()), ('pair_distance', pair_idx, X[pair_idx], ()),
-               ('pair_score', pair_idx, X[pair_idx], ())]
-      if ts:
-        calls += [('predict', tup_idx, X[tup_idx], ()), ('decision_function', tup_idx, X[tup_idx], ())]
-        calls += [('score', tup_idx, X[tup_idx], (ypm,) if ts == 2 else ())]
-      for meth, idx, formed, more in calls:
-        for iname, iv in index_variants(rng, idx):
-          ctx.count('query_indices_vs_formed', 1)
-          ctx.seen((name, meth, pkind, iname), True)
-          ctx.hist('method', meth)
-          try:
-            with warnings.catch_warnings():
-              warnings.simplefilter('ignore')
-              a = getattr(est, meth)(iv, *more)
-              before = counting.calls
-              b = getattr(est, meth)(formed, *more)
-              consulted = counting.calls != before
-          except Exception as ex:
-            ctx.fail_input('query_indices_vs_formed', '%s on indices raises %s' % (meth, type(ex).__name__),
-                           dict(estimator=name, method=meth, preprocessor=pkind, index_repr=iname), observed=str(ex)[:200])
-            continue
-          if not same(a, b):
-            ctx.fail_input('query_indices_vs_formed', '%s: indices + preprocessor differ from formed data' % meth,
-                           dict(estimator=name, method=meth, preprocessor=pkind, index_repr=iname, X=X.tolist(),
-                                indices=np.asarray(iv).tolist()),
-                           observed=np.asarray(a).tolist(), expected=np.asarray(b).tolist())
-          if pkind == 'callable' and consulted:
-            ctx.fail_input('formed_ignores_preprocessor', '%s consults the preprocessor although formed data is passed' % meth,
-                           dict(estimator=name, method=meth))
-      if ts == 2:
-        with warnings.catch_warnings():
-          warnings.simplefilter('ignore')
-          e1 = fits.make_estimator(name, kwp).fit(train_idx, *extra)
-          e1.calibrate_threshold(pair_idx, ypm)
-          t1 = e1.threshold_
-          e1.calibrate_threshold(X[pair_idx], ypm)
-        ctx.count('query_indices_vs_formed', 1)
-        if t1 != e1.threshold_:
-          ctx.fail_input('query_indices_vs_formed', 'calibrate_threshold: indices + preprocessor differ from formed data',
-                         dict(estimator=name, preprocessor=pkind), observed=t1, expected=e1.threshold_)
-    # an exception inside the preprocessor surfaces as PreprocessorError
-    kwr = dict(kw)
-    kwr['preprocessor'] = raising
-    for what in ('fit', 'transform', 'pair_distance'):
-      ctx.count('preprocessor_error_wrapped', 1)
-      try:
-        with warnings.catch_warnings():
-          warnings.simplefilter('ignore')
-          if what == 'fit':
-            fits.make_estimator(name, kwr).fit(train_idx, *extra)
-          else:
-            e = fits.make_estimator(name, kw).fit(*formed_train)
-            e.preprocessor_ = raising
-            getattr(e, what)(pts_idx if what == 'transform' else pair_idx)
-        ctx.fail_input('preprocessor_error_wrapped', '%s returns although the preprocessor raises' % what, dict(estimator=name, method=what))
-      except PreprocessorError:
-        pass
-      except Exception as ex:
-        ctx.fail_input('preprocessor_error_wrapped', '%s: preprocessor exception surfaces as %s' % (what, type(ex).__name__),
-                       dict(estimator=name, method=what), observed=str(ex)[:200])
-    ctx.sample(dict(estimator=name, train_indices=np.asarray(train_idx)[:5].tolist(), query_pair_indices=pair_idx[:2].tolist()), limit=3)
+    di['X'] = Xi
+    di['yreg'] = np.round(data['yreg'] * 4)
+    try:
+      kwi = fits.sdml_fix_balance(name, fits.base_kwargs(name, di), di)
+    except Exception:
+      continue
+    di['X'] = Xi.astype(dt)
+    ctx.hist('integer_preprocessor_dtype', np.dtype(dt).name)
+    one_spec(ctx, name, kwi, di, ('ndarray', 'callable'), np.dtype(dt).name)
 
 
 def replay(payload):
